@@ -19,6 +19,8 @@ GLNext == UNCHANGED <<vars, h>>
 GLSpec == GLInit /\ [][GLNext]_<<vars, h>>
 GLPrint == PrintT("@@" \o ToJson([lines |-> h]))
 
+\* unknown, the configured one, the IP of pool addresses 1/2/9, the IP of pool address 3
+Cips == << NoIp, QCfg.cip, <<2561, 1>>, <<2563, 4>> >>
 Op(o, a, s, li) == [op |-> o, addrs |-> a, s |-> s, li |-> li]
 PushB0 == {<<a>> : a \in 1 .. Len(QPool)} \cup {<<1, 2>>, <<3, 4>>, <<1, 9>>, <<3, 1>>, <<5, 6>>, <<3, 1, 4>>}
 PushB1 == IF ALPHA = "wide" THEN PushB0 ELSE {<<1>>, <<2>>, <<3>>, <<3, 1>>}
@@ -28,8 +30,10 @@ Alphabet ==
            Op("Push", <<3, 1, 4>>, 0, 0)}
      ELSE {Op("Push", b, 0, 0) : b \in PushB0} \cup {Op("Push", b, 1, 0) : b \in PushB1})
     \cup {Op("Pop", <<>>, 0, 0), Op("Reset", <<>>, 0, 0), Op("Reload", <<>>, 0, 1), Op("Reload", <<>>, 0, 2)}
+    \* the client learns / changes its external address (index into Header.cips)
+    \cup {Op("SetCip", <<>>, 0, i) : i \in 1 .. Len(Cips)}
 
-Header == [hdr |-> TRUE, port |-> QCfg.port, cip |-> QCfg.cip,
+Header == [hdr |-> TRUE, port |-> QCfg.port, cip |-> QCfg.cip, cips |-> Cips,
            pool |-> [i \in 1 .. Len(QPool) |-> [ip |-> QPool[i].ip, port |-> QPool[i].port]],
            lists |-> << <<>>, <<Cidr(<<2561, 256>>, 30)>> >>]
 
